@@ -1084,6 +1084,16 @@ func seid0Paths(c *core.Ctx, rule string, fn *ssa.Function, rDel, remoteSess *ty
 				return true
 			}
 		}
+		// a defensive guard: a parameter the handler goes on to call methods on is nil (the call would have
+		// panicked; no message can take this path)
+		for _, prm := range fn.Params {
+			switch prm.Type().Underlying().(type) {
+			case *types.Pointer, *types.Interface:
+				if core.NilKnownAt(b, prm, true) {
+					return true
+				}
+			}
+		}
 		return false
 	})
 	pos := test.Pos()
